@@ -7,7 +7,7 @@ LEVEL = "exploration"
 def plan(tier, seed):
     quick = tier == "quick"
     net = runner.net_path("material", 1)
-    shards = [dict(bin=("opt", "c06"), args=["--cases", 220 if quick else 7000]) for _ in range(16)]
+    shards = [dict(bin=("opt", "c06"), args=["--cases", 600 if quick else 7000]) for _ in range(16)]
     return dict(
         builds=[("opt", "c06")],
         nets=[("material", 1)],
